@@ -115,7 +115,7 @@ def natural_case(rng):
          'oscillating': -rng.uniform(0.3, 1.3), 'slow': rng.uniform(0.9, 0.999)}[regime]
     b = rng.uniform(-0.9, 0.9)
     c = rng.uniform(-2, 2)
-    script = f'Y = {a!r} * Z + {c!r} + 0.5 * Y[-1]\nZ = {b!r} * Y + X'
+    script = f'Y = {a:.12f} * Z + {c:.12f} + 0.5 * Y[-1]\nZ = {b:.12f} * Y + X'
     Model = fsic.build_model(fsic.parse_model(script))
     n = 4
 
